@@ -491,17 +491,25 @@ func main() {
 				}
 			}
 			for k := range cuts {
-				states++
-				big := append(append([]byte{}, enc...), 0xEE, 0xEE, 0xEE, 0xEE)
-				in := big[:k:k]
-				var got string
-				var err error
-				pk, what := catch(func() { got, err = f(in) })
-				trans++
-				if pk {
-					run.Report("C20|string|short-panic|"+name, fmt.Sprintf("%s panicked on a %d-byte prefix of a %d-byte encoding: %s", name, k, len(enc), what), c)
-				} else if err == nil {
-					run.Report("C20|string|short-noerror|"+name, fmt.Sprintf("%s returned (%q, nil) for a %d-byte prefix of a %d-byte encoding", name, vlib.Short(got, 20), k, len(enc)), c)
+				// once with capacity == length (an over-read panics), once with the rest of the encoding and guard bytes
+				// as spare capacity behind the slice (a receive buffer cut to what arrived): nothing beyond len may be read
+				for _, spare := range []bool{false, true} {
+					states++
+					big := append(append([]byte{}, enc...), 0xEE, 0xEE, 0xEE, 0xEE)
+					in := big[:k:k]
+					if spare {
+						in = big[:k]
+					}
+					var got string
+					var err error
+					pk, what := catch(func() { got, err = f(in) })
+					trans++
+					sfx := map[bool]string{false: "", true: " with spare capacity behind it"}[spare]
+					if pk {
+						run.Report("C20|string|short-panic|"+name, fmt.Sprintf("%s panicked on a %d-byte prefix of a %d-byte encoding%s: %s", name, k, len(enc), sfx, what), c)
+					} else if err == nil {
+						run.Report("C20|string|short-noerror|"+name, fmt.Sprintf("%s returned (%q, nil) for a %d-byte prefix of a %d-byte encoding%s", name, vlib.Short(got, 20), k, len(enc), sfx), c)
+					}
 				}
 			}
 		}
